@@ -76,4 +76,11 @@ MUTANTS = [
  ("C09", "ensemble_update_skips_last_member", EN, "        for forecaster in self.forecasters_:\n            forecaster.update(y, X, update_params=update_params)", "        for forecaster in self.forecasters_[: max(1, len(self.forecasters_) - 1)]:\n            forecaster.update(y, X, update_params=update_params)"),
  ("C09", "pipeline_transformers_updated_with_raw", PL, "                transformer.update(yt, update_params=update_params)", "                transformer.update(y, update_params=update_params)"),
  ("C09", "skip_inverse_tag_ignored", PL, '            if not _has_tag(transformer, "skip-inverse-transform"):\n                y_pred = transformer.inverse_transform(y_pred)', '            if True:\n                y_pred = transformer.inverse_transform(y_pred)'),
+ ("C10", "combine_first_swapped", SK, "            self._y = y.combine_first(self._y)", "            self._y = self._y.combine_first(y)"),
+ ("C10", "cutoff_not_restored", SK, "            # re-set cutoff to initial value\n            self._set_cutoff(cutoff)", "            # re-set cutoff to initial value\n            pass"),
+ ("C10", "update_params_false_refits", SK, "        if update_params:\n            # default to re-fitting if update is not implemented", "        if update_params or len(y) > 2:\n            # default to re-fitting if update is not implemented"),
+ ("C10", "refit_on_passed_data_only", SK, "            self.fit(self._y, self._X, self._fh)", "            self.fit(y if len(y) > 3 else self._y, self._X, self._fh)"),
+ ("C10", "moving_cutoff_labels_shifted", SK, "                cutoffs.append(self.cutoff)", "                cutoffs.append(self.cutoff + (len(cutoffs) > 1))"),
+ ("C10", "ensemble_update_forgets_update_params", EN, "            forecaster.update(y, X, update_params=update_params)", "            forecaster.update(y, X)"),
+ ("C10", "update_fh_fix_reverted", SK, "            self.fit(self._y, self._X, self._fh)", "            self.fit(self._y, self._X, self.fh)"),
 ]
